@@ -121,11 +121,11 @@ def build_templates(tables, ctx):
                 dd = gd.get("day", "")
                 if int(dd.strip()) != d:
                     ok = False
-                t["style"]["day"] = "space" if dd.startswith(" ") else "zero" if dd.startswith("0") else "single" if len(dd) == 1 else "two"
+                t["style"]["day"] = "space" if dd.startswith(" ") else "single" if len(dd) == 1 else "zero" if dd.startswith("0") else "two"
                 hh = gd.get("hour", "")
                 if int(hh) != h or int(gd.get("minute", "-1")) != mi:
                     ok = False
-                t["style"]["hour"] = "zero" if hh.startswith("0") else "single" if len(hh) == 1 else "two"
+                t["style"]["hour"] = "single" if len(hh) == 1 else "zero" if hh.startswith("0") else "two"
                 if "second" in gd and int(gd["second"]) != s:
                     ok = False
                 if "second" not in gd and s != 0:
@@ -163,7 +163,31 @@ def build_templates(tables, ctx):
             skip("example_fields_not_understood")
             continue
         tpls.append(t)
-    return (tpls, skipped), ""
+    # the documented reading of an example (its tuple; O_L = the fallback zone) must be what the whole
+    # pipeline (all rows in table order) gives for the example line itself; otherwise the example only
+    # documents its row in isolation (an earlier row claims the line and reads it differently)
+    reqs = ["%s\t%s\t0" % (hx(t["raw"].split(b"\n")[0]), "-") for t in tpls]
+    outl, err = vlib.harness("c04", reqs, args=["parse"])
+    if outl is None or len(outl) != len(reqs):
+        return None, err
+    keep, shadowed = [], []
+    for t, o in zip(tpls, outl):
+        tc = rows[t["row"]]["tests"][t["ex"]]
+        y, mo, d, h, mi, s, ns = tc["fields"]
+        if t["kind"] == "yearless":
+            keep.append(t)
+            continue
+        doc = (calendar.timegm((y, mo, d, h, mi, s)) - (tc["off"] or 0)) * 10 ** 9 + ns
+        p = o.split("\t")
+        if o == "NONE" or p[1] == "PANIC" or (int(p[1]) != doc and t["kind"] != "epoch"):
+            skip("example_documented_reading_differs_from_pipeline")
+            shadowed.append(dict(table_row=t["row"], example=t["raw"].decode("utf-8", "replace")[:100], claimed_by_row=None if o == "NONE" else int(p[0]),
+                                 documented_ns=doc, pipeline_ns=None if o == "NONE" or p[1] == "PANIC" else int(p[1])))
+            continue
+        t["first_row"] = int(p[0])
+        keep.append(t)
+    skipped["_shadowed_list"] = shadowed
+    return (keep, skipped), ""
 
 
 def render_name(names, idx, form, dot, cs):
@@ -314,6 +338,14 @@ def fmt_utc(ns):
     return "%04d%02d%02dT%02d%02d%02d.%09d+0000" % (g.tm_year, g.tm_mon, g.tm_mday, g.tm_hour, g.tm_min, g.tm_sec, n)
 
 
+def ends_line(t):
+    """the documented example ends (its first physical line) at most one character after the last captured
+    group, and the row's regex offers `$` as the alternative to a following character"""
+    first = t["raw"].split(b"\n")[0]
+    last_end = max(b for _, _, b in t["groups"])
+    return len(first) - last_end <= 1 and t["regex"].endswith("|$)")
+
+
 def may_dot(line_text):
     return re.search(r"(?<![A-Za-z])(may|May|MAY)\.", line_text) is not None
 
@@ -376,6 +408,27 @@ def run(ctx):
                 while len(grp) < 6:             # block-zero acceptance needs enough dated lines
                     grp = grp + grp
                 files.append(dict(tpl=ti, zone=zs, fb=fb, cases=grp, name="t%04d_%d%s.log" % (ti, fi, tag), maydot=bool(tag)))
+    # ---- B: in-process, every line through all rows in table order (also tells which row claims a line)
+    blines, bmeta = [], []
+    for f in files:
+        for c in f["cases"]:
+            blines.append("%s\t%s\t%d" % (hx(c["line"].split(b"\n")[0]), "-", f["fb"]))
+            bmeta.append((f, c))
+    # year-less notations get a fill year as the year walk would pass it
+    for i, (f, c) in enumerate(bmeta):
+        if tpls[f["tpl"]]["kind"] == "yearless":
+            blines[i] = "%s\t%d\t%d" % (hx(c["line"].split(b"\n")[0]), 1972 + (i * 7) % 120, f["fb"])
+    tb = time.time()
+    outl, err = vlib.harness("c04", blines, args=["parse"], timeout=1200)
+    ctx.note("harness parse: %d lines in %.1fs" % (len(blines), time.time() - tb))
+    if outl is not None and len(outl) == len(blines):
+        for (f, c), o in zip(bmeta, outl):
+            f.setdefault("first_rows", set()).add(o.split("\t")[0])
+        if quick and len(blines) > 6000:
+            idx = sorted(rng.sample(range(len(blines)), 6000))
+            blines = [blines[i] for i in idx]
+            bmeta = [bmeta[i] for i in idx]
+            outl = [outl[i] for i in idx]
     # ---- C: the binary
     def run_file(f):
         p = os.path.join(d, f["name"])
@@ -390,6 +443,7 @@ def run(ctx):
     ctx.note("binary runs: %d files in %.1fs" % (len(files), time.time() - tb))
     n_lines = 0
     fail_rows = {}
+    fail_cls, fail_examples = {}, []
     more_failures = [0]
     fail_lines = 0
     hist_kind, hist_zone, hist_frac, hist_tz = {}, {}, {}, {}
@@ -434,29 +488,21 @@ def run(ctx):
                     cls.append("epoch_timestamp_with_nonzero_tz_offset")
                 if f["maydot"]:
                     cls.append("month_may_with_dot")
+                if ends_line(t):
+                    cls.append("timestamp_at_end_of_line")
+                if len(f.get("first_rows", ())) > 1:
+                    cls.append("notation_lines_split_between_table_rows")
+                key = "%d:%s" % (t["row"], "+".join(cls) or "UNCLASSIFIED")
+                fail_cls[key] = fail_cls.get(key, 0) + 1
+                if fail_cls[key] <= 2:
+                    fail_examples.append(dict(key=key, line=c["line"].decode("utf-8", "replace")[:120], tz_offset=f["zone"], expected=want.decode("utf-8", "replace")[:31], got=have.decode("utf-8", "replace")[:80]))
                 if fail_rows[t["row"]] > 2 and not cls:
                     more_failures[0] += 1
                     continue
                 ctx.failure(dict(line=c["line"].decode("utf-8", "replace"), tz_offset=f["zone"], table_row=t["row"], source_line=t["line"],
                                  documented_example=t["raw"].decode("utf-8", "replace"), file_lines=[x["line"].decode("utf-8", "replace") for x in f["cases"]][:12]),
                             want.decode("utf-8", "replace")[:60], have.decode("utf-8", "replace")[:120], cls)
-    # ---- B: in-process vs model on the captured groups
-    blines, bmeta = [], []
-    for f in files:
-        for c in f["cases"]:
-            blines.append("%s\t%s\t%d" % (hx(c["line"].split(b"\n")[0]), "-", f["fb"]))
-            bmeta.append((f, c))
-    # year-less notations get a fill year as the year walk would pass it
-    for i, (f, c) in enumerate(bmeta):
-        if tpls[f["tpl"]]["kind"] == "yearless":
-            blines[i] = "%s\t%d\t%d" % (hx(c["line"].split(b"\n")[0]), 1972 + (i * 7) % 120, f["fb"])
-    if quick and len(blines) > 6000:
-        idx = sorted(rng.sample(range(len(blines)), 6000))
-        blines = [blines[i] for i in idx]
-        bmeta = [bmeta[i] for i in idx]
-    tb = time.time()
-    outl, err = vlib.harness("c04", blines, args=["parse"], timeout=1200)
-    ctx.note("harness parse: %d lines in %.1fs" % (len(blines), time.time() - tb))
+    # ---- B (continued): the model on the captured groups
     model_dis, unmatched, panics = [], 0, 0
     if outl is None or len(outl) != len(blines):
         ctx.obligation_broken("correspondence", "harness c04 parse", err)
@@ -531,7 +577,7 @@ def run(ctx):
         documented_examples=sum(len(r["tests"]) for r in tables["rows"]), templates_skipped=skipped,
         files=len(files), kind_histogram=hist_kind, fallback_zone_histogram=hist_zone,
         fraction_digits_histogram={str(k): v for k, v in sorted(hist_frac.items())}, zone_spelling_histogram=hist_tz,
-        spec_failures=fail_lines, spec_failures_by_table_row={str(k): v for k, v in sorted(fail_rows.items())}, model_cases=len(blines), model_disagreements=len(model_dis), harness_unmatched=unmatched,
+        spec_failures=fail_lines, spec_failures_by_row_and_class=fail_cls, spec_failure_examples=fail_examples[:60], spec_failures_by_table_row={str(k): v for k, v in sorted(fail_rows.items())}, model_cases=len(blines), model_disagreements=len(model_dis), harness_unmatched=unmatched,
         harness_panics=panics, oracle_cases=len(srows), oracle_disagreements=oracle_dis)
     ctx.assumptions += [
         "PARTIAL: the regex crate (capturing, leftmost-first alternation, pattern competition in block-zero analysis) is not modelled; it is exercised by runs B and C only",
